@@ -455,8 +455,19 @@ pub fn extract(c: &Crate, items: &Items, raw: &Raw) -> Table {
         let b = body.replace(' ', "");
         match name.as_str() {
             "unsize" => {
-                let canon = "($gc:expr=>$ty:ty)=>{{letgc=$gc;unsafe{$crate::__CoercePtrInternal::__coerce_unchecked(gc,|p:*const_|->*const$ty{p})}}};";
-                if b == canon || b == canon.trim_end_matches(';') {
+                // `($a:expr => $b:ty) => {{ let gc = $a; unsafe { $crate::__CoercePtrInternal::__coerce_unchecked(gc, |p: *const _| -> *const $b { p }) } }};`
+                // metavariable names are free
+                let canon_ok = (|| {
+                    let b2 = b.trim_end_matches(';');
+                    let (m, rhs) = b2.split_once("=>{{")?;
+                    let m = m.strip_prefix('(')?.strip_suffix(')')?;
+                    let (a, t2) = m.split_once("=>")?;
+                    let a = a.strip_prefix('$')?.strip_suffix(":expr")?;
+                    let t2 = t2.strip_prefix('$')?.strip_suffix(":ty")?;
+                    Some(format!("{{{{{rhs}") == format!("{{{{letgc=${a};unsafe{{$crate::__CoercePtrInternal::__coerce_unchecked(gc,|p:*const_|->*const${t2}{{p}})}}}}}}"))
+                })()
+                .unwrap_or(false);
+                if canon_ok {
                     t.sigs.push(Sig {
                         name: "unsize!".into(),
                         is_unsafe: false,
